@@ -175,7 +175,7 @@ MIDX = {m.key: i for i, m in enumerate(MEASURES)}
 # --------------------------------------------------------------------------- comparison
 
 
-def same(x, y, exact):
+def same(x, y, exact, tol=TOL):
     try:
         x = np.asarray(x, dtype=float); y = np.asarray(y, dtype=float)
     except Exception:
@@ -193,7 +193,7 @@ def same(x, y, exact):
     f = ~(nx | ix)
     if exact:
         return bool((x[f] == y[f]).all())
-    return bool((np.abs(x[f] - y[f]) <= TOL * np.maximum(1.0, np.abs(y[f]))).all())
+    return bool((np.abs(x[f] - y[f]) <= tol * np.maximum(1.0, np.abs(y[f]))).all())
 
 
 def canon_rows(x):
@@ -211,23 +211,23 @@ def part_of(lab):
     return blocks
 
 
-def compare(kind, exact, base, perm_out, p):
+def compare(kind, exact, base, perm_out, p, tol=TOL):
     """does perm_out (= f(A[p,p])) equal the renumbered base (= f(A)) ?  p[i] = old index of new node i"""
     if kind == V:
         b = np.asarray(base)
         if b.ndim != 1 or len(b) != len(p):
             return False
-        return same(perm_out, b[p], exact)
+        return same(perm_out, b[p], exact, tol)
     if kind == MM:
         b = np.asarray(base)
         if b.ndim != 2 or b.shape != (len(p), len(p)):
             return False
-        return same(perm_out, b[np.ix_(p, p)], exact)
+        return same(perm_out, b[np.ix_(p, p)], exact, tol)
     if kind in (S, D):
-        return same(perm_out, base, exact)
+        return same(perm_out, base, exact, tol)
     if kind == MS:
         a, b = canon_rows(perm_out), canon_rows(base)
-        return len(a) == len(b) and same(np.array(a), np.array(b), exact)
+        return len(a) == len(b) and same(np.array(a), np.array(b), exact, tol)
     if kind == 'part':
         # nodes i,j of the renumbered graph share a block iff p[i], p[j] do in the original
         pb = sorted(sorted(p[i] for i in blk) for blk in part_of(perm_out).values())
@@ -264,9 +264,57 @@ def ci_of(A):
     return np.array([(3 * i + 1) % 4 * 2 + 3 for i in range(n)]) if n > 2 else np.array([5, 3][:n])
 
 
-def evaluate(m, A, ci):
+REPS = ('F-order', 'strided-view', 'int64', 'bool', 'float32')
+# SciPy's LAPACK wrappers compute in single precision for float32 *and* bool input: inexact outputs are then compared to 1e-4
+SINGLE_PRECISION_REPS = ('float32', 'bool')
+
+
+def rep_ok(rep, A):
+    """can the matrix be presented in this representation without changing a value?"""
+    if rep in ('F-order', 'strided-view'):
+        return True
+    if rep == 'int64':
+        return bool((A == np.round(A)).all())
+    if rep == 'bool':
+        return bool(((A == 0) | (A == 1)).all())
+    if rep == 'float32':
+        return bool((A.astype(np.float32).astype(np.float64) == A).all())
+    return False
+
+
+def rep_apply(rep, A):
+    """the same matrix in another memory layout / dtype (None: float64, C order)"""
+    if rep is None:
+        return A.copy()
+    if rep == 'F-order':
+        return np.asfortranarray(A)
+    if rep == 'strided-view':            # every second row/column of a larger buffer: not contiguous, does not own its data
+        n = len(A)
+        B = np.full((2 * n + 1, 2 * n + 1), 7.0)
+        B[::2, ::2][:n, :n] = A
+        return B[::2, ::2][:n, :n]
+    if rep == 'int64':
+        return A.astype(np.int64)
+    if rep == 'bool':
+        return A.astype(bool)
+    if rep == 'float32':
+        return A.astype(np.float32)
+    raise ValueError(rep)
+
+
+def pick_rep(m, A):
+    """a fraction (~1/4) of the (measure, graph) cases of the list families is run in another representation; the choice is a
+    function of the case so that a replay reproduces it"""
+    h = int(hashlib.sha1(m.key.encode() + A.tobytes()).hexdigest()[:8], 16)
+    if h % 4 != 0:
+        return None
+    cands = [r for r in REPS if rep_ok(r, A)]
+    return cands[(h // 4) % len(cands)] if cands else None
+
+
+def evaluate(m, A, ci, rep=None):
     """('ok', outputs) | ('exc', kind) | ('timeout', None)"""
-    st, v = call(m.fn, bct_mod(), A.copy(), ci.copy(), t=m.t)
+    st, v = call(m.fn, bct_mod(), rep_apply(rep, A), ci.copy(), t=m.t)
     if st == 'ok':
         if not isinstance(v, tuple):
             v = (v,)
@@ -276,14 +324,16 @@ def evaluate(m, A, ci):
     return st, None
 
 
-def cond_of(m, A):
+def cond_of(m, A, rep=None):
     c = dict(m.cond)
+    if rep is not None:
+        c['rep'] = rep
     if m.cond_fn is not None:
         c.update(m.cond_fn(A))
     return c
 
 
-def check_pair(m, A, ci, p, base, permd, res):
+def check_pair(m, A, ci, p, base, permd, res, rep=None):
     """compare one (graph, permutation) pair; res is the worker's accumulator"""
     res['pairs'] += 1
     if base[0] == 'timeout' or permd[0] == 'timeout':
@@ -294,8 +344,8 @@ def check_pair(m, A, ci, p, base, permd, res):
             res['both_raise'] += 1
             res['raise_kinds'][base[1]] = res['raise_kinds'].get(base[1], 0) + 1
         else:
-            res['viol'].append({'measure': m.key, 'name': m.name, 'pred': 'raises-on-one-numbering-only', 'cond': cond_of(m, A),
-                                'detail': {'measure': m.key, 'A': A.tolist(), 'p': [int(t) for t in p], 'ci': ci.tolist(),
+            res['viol'].append({'measure': m.key, 'name': m.name, 'pred': 'raises-on-one-numbering-only', 'cond': cond_of(m, A, rep),
+                                'detail': {'measure': m.key, 'A': A.tolist(), 'p': [int(t) for t in p], 'ci': ci.tolist(), 'rep': rep,
                                            'base': str(base[:2])[:200], 'renumbered': str(permd[:2])[:200]}})
         return
     res['ok_pairs'] += 1
@@ -310,20 +360,20 @@ def check_pair(m, A, ci, p, base, permd, res):
             elif not compare(MM, True, bo, po, p):
                 res['excluded_differs'] += 1
             continue
-        if not compare(kind, exact, bo, po, p):
-            res['viol'].append({'measure': m.key, 'name': m.name, 'pred': 'equivariance', 'cond': cond_of(m, A),
+        if not compare(kind, exact, bo, po, p, tol=(1e-4 if rep in SINGLE_PRECISION_REPS else TOL)):
+            res['viol'].append({'measure': m.key, 'name': m.name, 'pred': 'equivariance', 'cond': cond_of(m, A, rep),
                                 'detail': {'measure': m.key, 'output': label, 'kind': kind, 'exact': exact, 'A': A.tolist(),
-                                           'p': [int(t) for t in p], 'ci': ci.tolist(),
+                                           'p': [int(t) for t in p], 'ci': ci.tolist(), 'rep': rep,
                                            'f(A)': np.asarray(bo, float).tolist(), 'f(A[p,p])': np.asarray(po, float).tolist()}})
             return
     if len(m.outs) != len(base[1]) or len(m.outs) != len(permd[1]):
-        res['viol'].append({'measure': m.key, 'name': m.name, 'pred': 'output-arity', 'cond': cond_of(m, A),
+        res['viol'].append({'measure': m.key, 'name': m.name, 'pred': 'output-arity', 'cond': cond_of(m, A, rep),
                             'detail': {'measure': m.key, 'A': A.tolist(), 'expected': len(m.outs), 'got': len(base[1])}})
 
 
 def new_res(m, fam):
     return {'measure': m.key, 'family': fam, 'pairs': 0, 'ok_pairs': 0, 'calls': 0, 'timeouts': 0, 'both_raise': 0, 'raise_kinds': {}, 'excluded_differs': 0,
-            'viol': [], 'nontrivial': 0, 'sample': None, 'aborted': False}
+            'viol': [], 'nontrivial': 0, 'sample': None, 'aborted': False, 'rep_pairs': {}, 'rep_rejected': {}}
 
 
 def perms_of(n):
@@ -334,15 +384,16 @@ def run_item(item):
     """item = (measure index, family, payload).  family 'exh': payload=(n, directed, subset or None): every labelled graph
     (or the listed ones) x all n! permutations, f evaluated once per distinct labelled graph (cache);
     family 'list': payload = list of (A, [perms]) ."""
-    mi, fam, payload = item
+    mi, fam, payload = item[:3]
+    forced_rep = item[3] if len(item) > 3 else None      # replay: the representation stored with the case ('none' = default)
     m = MEASURES[mi]
     res = new_res(m, fam)
     cache = {}
 
-    def ev(A, ci):
-        k = (A.tobytes(), ci.tobytes() if m.uses_ci else b'')
+    def ev(A, ci, rep=None):
+        k = (A.tobytes(), ci.tobytes() if m.uses_ci else b'', rep)
         if k not in cache:
-            cache[k] = evaluate(m, A, ci)
+            cache[k] = evaluate(m, A, ci, rep)
             res['calls'] += 1
         return cache[k]
 
@@ -367,15 +418,25 @@ def run_item(item):
         if m.need is not None and not m.need(A):
             continue
         ci = ci_of(A)
-        base = ev(A, ci)
+        rep = forced_rep if forced_rep is not None else (None if fam.startswith('exh') else pick_rep(m, A))
+        if rep == 'none':
+            rep = None
+        base = ev(A, ci, rep)
+        if rep is not None and base[0] != 'ok':
+            # "where accepted": the routine does not take this dtype/layout -> counted, and the case runs in the default one
+            res['rep_rejected'][rep] = res['rep_rejected'].get(rep, 0) + 1
+            rep = None
+            base = ev(A, ci, rep)
+        if rep is not None:
+            res['rep_pairs'][rep] = res['rep_pairs'].get(rep, 0) + len(plist)
         for p in plist:
             if res['timeouts'] >= ABORT_AFTER_TIMEOUTS:
                 break
             Ap = A[np.ix_(p, p)]
-            permd = ev(Ap, ci[p])
+            permd = ev(Ap, ci[p], rep)
             k = (A.tobytes(), tuple(int(t) for t in p))
             nv = len(res['viol'])
-            check_pair(m, A, ci, p, base, permd, res)
+            check_pair(m, A, ci, p, base, permd, res, rep)
             if k not in seen and has_edge(A) and not (p == np.arange(len(p))).all():
                 seen.add(k)
                 res['nontrivial'] += 1
@@ -478,6 +539,59 @@ def structured_graphs():
     return G
 
 
+PATH_MEASURES = {'betweenness_wei', 'edge_betweenness_wei', 'distance_wei', 'distance_wei_floyd', 'efficiency_wei', 'charpath'}
+FAMILY_ONLY = {'neartie': PATH_MEASURES, 'neartie-inv': {'efficiency_wei'}}
+
+
+def neartie_graphs(rs, count):
+    """dyadic length matrices (n = 4, 5) with *near* ties: two routes whose total lengths differ by eps = 2^-40 .. 2^-30 (all sums
+    exact in floats) and whose penultimate nodes are at exactly the same distance from the source, so that a routine that
+    compares lengths with a tolerance makes the result depend on the order in which the tied predecessors are relaxed"""
+    out = []
+    for c in range(count):
+        n = 4 if c % 3 == 0 else 5
+        eps = 2.0 ** -int(rs.choice([30, 33, 36, 40]))
+        directed = bool(c % 2)
+        A = np.zeros((n, n))
+        q = rs.permutation(n)
+        s_, a, b, t = q[:4]
+        x, y = rs.choice([.25, .5]), rs.choice([.25, .5])
+
+        def put_edge(i, j, w):
+            A[i, j] = w
+            if not directed:
+                A[j, i] = w
+        put_edge(s_, a, x); put_edge(s_, b, x)                 # exactly tied penultimate nodes
+        put_edge(a, t, y); put_edge(b, t, y + eps)             # routes of length x+y and x+y+eps
+        if n == 5:
+            e = q[4]
+            kind = c % 4
+            if kind == 0:                                      # a tail behind the target: more pairs route through the near tie
+                put_edge(t, e, .25)
+            elif kind == 1:                                    # a third route, exactly tied with the shorter one
+                put_edge(s_, e, x); put_edge(e, t, y)
+            elif kind == 2:                                    # a third route, longer by 2 eps
+                put_edge(s_, e, x); put_edge(e, t, y + 2 * eps)
+            else:                                              # the source is reached through e
+                put_edge(e, s_, .5)
+        if rs.rand() < .5:                                     # a direct connection that is (nearly) tied as well
+            put_edge(s_, t, x + y + rs.choice([0.0, eps, -eps]))
+        if directed and rs.rand() < .5:                        # some back edges
+            put_edge(t, s_, .75)
+        out.append(A)
+    # palette graphs: lengths from {1/4, 1/4+eps, 1/2, 1/2+eps, 1/2+2eps}: many accidental exact and near ties
+    for c in range(count // 2):
+        n = 5 if c % 2 else 4
+        eps = 2.0 ** -int(rs.choice([30, 36, 40]))
+        pal = np.array([.25, .25 + eps, .5, .5 + eps, .5 + 2 * eps])
+        A = (rs.rand(n, n) < .7) * pal[rs.randint(0, len(pal), size=(n, n))]
+        np.fill_diagonal(A, 0)
+        if c % 3 == 0:
+            A = np.triu(A, 1); A = A + A.T
+        out.append(A)
+    return out
+
+
 def gen_families(rs, tier):
     """-> list of (family name, payload description) ; payloads are measure independent"""
     fams = []
@@ -495,7 +609,7 @@ def gen_families(rs, tier):
         fams.append(('exh-wu4', (4, False, None, (1, 2))))
         fams.append(('exh-su4', (4, False, None, (1, -1))))
     if quick:
-        idx = set(rs.choice(4096, size=120, replace=False).tolist())
+        idx = set(rs.choice(4096, size=80, replace=False).tolist())
         sub = [A.tolist() for i, A in enumerate(all_graphs(4, True)) if i in idx]
         fams.append(('exh-d4-slice', (4, True, sub, (1,))))
     else:
@@ -521,9 +635,18 @@ def gen_families(rs, tier):
         put(lst, A, ps)
     put(lst, D17_WITNESS['A'], [D17_WITNESS['p']] + ([] if quick else [rs.permutation(5).tolist() for _ in range(10)]))
     fams.append(('structured', lst))
+    # near ties in path lengths (dyadic, exact in floats) x all n! permutations; the elementwise inverses for efficiency_wei
+    lst, lsti = [], []
+    for A in neartie_graphs(rs, 8 if quick else 60):
+        ps = [list(p) for p in itertools.permutations(range(len(A)))]
+        put(lst, A, ps)
+        with np.errstate(divide='ignore'):
+            put(lsti, np.where(A != 0, 1.0 / np.where(A != 0, A, 1.0), 0.0), ps)
+    fams.append(('neartie', lst))
+    fams.append(('neartie-inv', lsti))
     # sampled 5-node graphs x all 5! permutations
     p5 = [list(p) for p in itertools.permutations(range(5))]
-    n5 = 8 if quick else 60
+    n5 = 6 if quick else 60
     for cls in ('bu', 'bd', 'wu', 'wd', 'su'):
         lst = []
         for _ in range(n5):
@@ -534,7 +657,7 @@ def gen_families(rs, tier):
             put(lst, A, p5)
         fams.append(('n5-all120-' + cls, lst))
     # random graphs n = 6..10 with random permutations
-    nr = 16 if quick else 150
+    nr = 12 if quick else 150
     npm = 3 if quick else 6
     for cls in ('bu', 'bd', 'wu', 'wd', 'su'):
         lst = []
@@ -575,13 +698,15 @@ def build_items(fams, only=None):
                     continue
                 items.append((mi, fam, payload))
             else:
+                if fam in FAMILY_ONLY and m.name not in FAMILY_ONLY[fam]:
+                    continue
                 cls = None
                 if fam.startswith('n5-all120-') or fam.startswith('rand-') and not fam.startswith('rand-connected'):
                     cls = fam.rsplit('-', 1)[1]
                 if cls is not None and cls not in ACCEPT[m.dom]:
                     continue
                 # split long lists so that the pool balances
-                step = 1 if fam.startswith('n5') else 8
+                step = 1 if fam.startswith('n5') or fam.startswith('neartie') else 8
                 for o in range(0, len(payload), step):
                     items.append((mi, fam, payload[o:o + step]))
     return items
@@ -609,7 +734,7 @@ def main():
                       'renumbered with it) and the outputs compared as vectors (f(A)[p]), matrices (f(A)[ix_(p,p)]), scalars/distributions (equal), '
                       'multisets or partitions; graphs: every labelled graph n<=4 x all n! permutations (a random slice of the 4-node digraphs in the '
                       'quick tier), every graph with weights {1,2} (n=3; thorough: undirected n=4) or {1,-1} (undirected n=3; thorough: n=4), sampled 5-node binary/weighted/signed graphs x all 120, random n=6..10 x random permutations, structured graphs '
-                      'with many automorphisms / degenerate spectra / ties in lengths; non-trivial = distinct (measure variant, A, p) with A non-empty '
+                      'with many automorphisms / degenerate spectra / ties in lengths, dyadic 4/5-node length matrices with near ties (routes differing by 2^-40..2^-30 behind exactly tied predecessors) x all n! for the path-based weighted measures; about a quarter of the list-family cases are presented in another representation (Fortran order, strided view, int64, bool, float32 where the routine accepts it); non-trivial = distinct (measure variant, A, p) with A non-empty '
                       'and p not the identity, counted in the workers: the families are disjoint by construction (exhaustive ones by n / '
                       'directedness, list families never repeat a labelled graph and skip 5-node binary undirected graphs when exh-u5 runs) and '
                       'repeated permutations of one graph are counted once')
@@ -628,9 +753,12 @@ def main():
         key = c['measure']
         fams = [('replay', [(c['A'], [c['p']])])]
         only = {key}
+        replay_rep = c.get('rep') or 'none' 
     else:
         fams = gen_families(ck.rs, ck.tier)
     items = build_items(fams, only)
+    if ck.replay:
+        items = [it + (replay_rep,) for it in items]
     # heavy items (exhaustive families) first, one item per task so that the pool balances
     weight = lambda it: -(len(list(it[2][2])) if it[1].startswith('exh') and it[2][2] is not None else
                           ((1 + len(it[2][3])) ** (it[2][0] * (it[2][0] - 1) // (1 if it[2][1] else 2)) if it[1].startswith('exh') else len(it[2])))
@@ -644,6 +772,11 @@ def main():
         t['excluded_outputs_differ'] += r['excluded_differs']; t['nontrivial'] += r['nontrivial']
         if r['aborted']:
             t['items_aborted_on_timeouts'] = t.get('items_aborted_on_timeouts', 0) + 1
+        for rp, c in r['rep_pairs'].items():
+            ck.count('representation:' + rp, c)
+        for rp, c in r['rep_rejected'].items():
+            ck.count('representation-not-accepted:' + rp, c)
+            t['rep_not_accepted'] = t.get('rep_not_accepted', 0) + c
         for kd, c in r['raise_kinds'].items():
             t['raise:' + kd] = t.get('raise:' + kd, 0) + c
         ck.count('family:' + r['family'], r['pairs'])
